@@ -638,4 +638,129 @@ theorem postprocess_clean_remap (ignore : Bool) (R P A : List (List Nat)) (h : C
   rw [repairFlat_clean_remap ignore _ _ _ h0 nR nP nA hd hg]
   simp only [cutLike_flatten]
 
+/-! ## atom level: a number that needs no repair is kept -/
+
+/-- position `i` keeps its number when it is mapped, not used before the loop and does not occur earlier in the role -/
+theorem assign_keeps (ignore : Bool) : ∀ (l : List Nat) (cnt : Nat) (used out : List Nat) (c : Nat),
+    assignMaps ignore cnt used l = .ok (out, c) →
+    ∀ i (hi : i < l.length), l[i] ≠ 0 → l[i] ∉ used → l[i] ∉ l.take i → out[i]? = some l[i] := by
+  intro l
+  induction l with
+  | nil => intro _ _ _ _ _ i hi; cases hi
+  | cons m ms ih =>
+    intro cnt used out c h i hi h0 hu ht
+    unfold assignMaps at h
+    cases i with
+    | zero =>
+      simp only [List.getElem_cons_zero] at h0 hu ⊢
+      have e1 : (m == 0) = false := by simpa using h0
+      have e2 : used.contains m = false := by simpa using hu
+      simp only [e1, e2, Bool.false_eq_true, if_false] at h
+      cases hr : assignMaps ignore cnt (m :: used) ms with
+      | error e => rw [hr] at h; cases h
+      | ok v =>
+        obtain ⟨out', c'⟩ := v
+        rw [hr] at h
+        simp only [Except.ok.injEq, Prod.mk.injEq] at h
+        obtain ⟨rfl, rfl⟩ := h
+        rfl
+    | succ j =>
+      have hj : j < ms.length := by simpa using hi
+      simp only [List.getElem_cons_succ] at h0 hu ⊢
+      simp only [List.take_succ_cons, List.mem_cons, not_or, List.getElem_cons_succ] at ht
+      -- in every branch the tail is processed with `used` or `m :: used`; `ms[j]` is in neither
+      have tail : ∀ cnt' used' out' c', assignMaps ignore cnt' used' ms = .ok (out', c') →
+          (∀ x ∈ used', x = m ∨ x ∈ used) → out'[j]? = some ms[j] := by
+        intro cnt' used' out' c' hr hsub
+        apply ih cnt' used' out' c' hr j hj h0 _ ht.2
+        intro hc
+        rcases hsub _ hc with e | e
+        · exact ht.1 e
+        · exact hu e
+      by_cases e1 : (m == 0) = true
+      · simp only [e1, if_true] at h
+        cases hr : assignMaps ignore (cnt + 1) used ms with
+        | error e => rw [hr] at h; cases h
+        | ok v =>
+          obtain ⟨out', c'⟩ := v
+          rw [hr] at h
+          simp only [Except.ok.injEq, Prod.mk.injEq] at h
+          obtain ⟨rfl, rfl⟩ := h
+          simpa using tail _ _ _ _ hr (fun x hx => Or.inr hx)
+      · simp only [e1, Bool.false_eq_true, if_false] at h
+        by_cases e2 : used.contains m = true
+        · simp only [e2, if_true] at h
+          by_cases e3 : (!ignore) = true
+          · simp [e3] at h
+          · simp only [e3, Bool.false_eq_true, if_false] at h
+            cases hr : assignMaps ignore (cnt + 1) used ms with
+            | error e => rw [hr] at h; cases h
+            | ok v =>
+              obtain ⟨out', c'⟩ := v
+              rw [hr] at h
+              simp only [Except.ok.injEq, Prod.mk.injEq] at h
+              obtain ⟨rfl, rfl⟩ := h
+              simpa using tail _ _ _ _ hr (fun x hx => Or.inr hx)
+        · simp only [e2, Bool.false_eq_true, if_false] at h
+          cases hr : assignMaps ignore cnt (m :: used) ms with
+          | error e => rw [hr] at h; cases h
+          | ok v =>
+            obtain ⟨out', c'⟩ := v
+            rw [hr] at h
+            simp only [Except.ok.injEq, Prod.mk.injEq] at h
+            obtain ⟨rfl, rfl⟩ := h
+            simpa using tail _ _ _ _ hr (fun x hx => by
+              rcases List.mem_cons.mp hx with e | e
+              · exact Or.inl e
+              · exact Or.inr e)
+
+/-- reactants and products: an atom whose written number is positive and does not occur earlier in its role keeps it
+    (default options) -/
+theorem repairFlat_keeps (fR fP fA mR mP mA : List Nat)
+    (h : repairFlat false true fR fP fA = .ok (mR, mP, mA)) :
+    (∀ i (hi : i < fR.length), fR[i] ≠ 0 → fR[i] ∉ fR.take i → mR[i]? = some fR[i]) ∧
+    (∀ i (hi : i < fP.length), fP[i] ≠ 0 → fP[i] ∉ fP.take i → mP[i]? = some fP[i]) := by
+  unfold repairFlat at h
+  simp only at h
+  generalize max (max (maxList fP) (maxList fR)) (maxList fA) + 1 = start at h
+  obtain ⟨o1, c1, h1⟩ := assign_total fR start []
+  rw [h1] at h
+  simp only at h
+  obtain ⟨o2, c2, h2⟩ := assign_total fP c1 []
+  rw [h2] at h
+  simp only at h
+  obtain ⟨o3, c3, h3⟩ := assign_total fA c2 []
+  rw [h3] at h
+  simp only at h
+  have k1 := assign_keeps true fR start [] o1 c1 h1
+  have k2 := assign_keeps true fP c1 [] o2 c2 h2
+  by_cases hb : (o3.filter fun x => o1.contains x || o2.contains x).isEmpty = true
+  · simp only [hb, Bool.not_true, Bool.false_and, Bool.false_eq_true, if_false, if_true, Except.ok.injEq,
+      Prod.mk.injEq] at h
+    obtain ⟨rfl, rfl, _⟩ := h
+    exact ⟨fun i hi a b => k1 i hi a (by simp) b, fun i hi a b => k2 i hi a (by simp) b⟩
+  · simp only [hb, Bool.not_false, Bool.true_and, Bool.not_true, Bool.false_eq_true, if_false, Except.ok.injEq,
+      Prod.mk.injEq] at h
+    obtain ⟨rfl, rfl, _⟩ := h
+    exact ⟨fun i hi a b => k1 i hi a (by simp) b, fun i hi a b => k2 i hi a (by simp) b⟩
+
+theorem postprocess_keeps (R P A : List (List Nat)) (o : MapOut)
+    (h : postprocessRxn false true R P A = .ok o) :
+    (∀ i (hi : i < R.flatten.length), R.flatten[i] ≠ 0 → R.flatten[i] ∉ R.flatten.take i →
+      o.reactants.flatten[i]? = some R.flatten[i]) ∧
+    (∀ i (hi : i < P.flatten.length), P.flatten[i] ≠ 0 → P.flatten[i] ∉ P.flatten.take i →
+      o.products.flatten[i]? = some P.flatten[i]) := by
+  unfold postprocessRxn at h
+  simp only [Bool.not_true, Bool.false_and, Bool.false_eq_true, if_false] at h
+  cases hr : repairFlat false true R.flatten P.flatten A.flatten with
+  | error e => rw [hr] at h; cases h
+  | ok v =>
+    obtain ⟨mR, mP, mA⟩ := v
+    rw [hr] at h
+    simp only [Except.ok.injEq] at h
+    subst h
+    have rep := repairFlat_spec _ _ _ _ _ _ hr
+    simp only [(cutLike_shape R mR rep.lenR).2, (cutLike_shape P mP rep.lenP).2]
+    exact repairFlat_keeps _ _ _ _ _ _ hr
+
 end ChythonModel.Proofs.C15
